@@ -59,8 +59,11 @@ fn answers<T: HLabel>(
                 Ok(QOut::Ext(e)) => Ans::Ext(e.map(|s| s.set)),
                 Err(p) => {
                     if h.borrow().cap_hit {
+                        ctx.count(&format!("skipped/sat-call-cap/{}", t.problem()));
                         Ans::Skipped("sat-call-cap".to_string())
                     } else {
+                        ctx.count(&format!("skipped/panic/{}", t.problem()));
+                        eprintln!("panic in {} {:?}: {} at {}", t.problem(), args, p.msg, p.loc);
                         Ans::Skipped(format!("panic: {}", p.msg))
                     }
                 }
